@@ -216,3 +216,43 @@ func Verif_C05_reference_cycles() {
 }
 
 var _ = io.EOF
+
+// Verif_C05_xref_entry_budget: whatever /Size and /Index a cross-reference
+// stream dictionary declares (arbitrary int64, up to three subsections), if it
+// is accepted then the number of entries that will be decoded -- one heap
+// entry each -- stays within the documented budget of the stream's raw
+// length (limits.XRefEntriesBase + limits.XRefEntriesPerByte * rawLen) and
+// below 2^24, and every subsection lies inside [0, Size).
+func Verif_C05_xref_entry_budget() {
+	size := verifrt.Int64("size")
+	rawLen := verifrt.Int64("rawlen")
+	verifrt.Assume(rawLen >= 0 && rawLen < 1<<40)
+	dict := Dict{"Size": Integer(size), "W": Array{Integer(1), Integer(2), Integer(1)}}
+	n := verifrt.Len("subsections", 0, 3)
+	var index Array
+	for i := 0; i < n; i++ {
+		index = append(index, Integer(verifrt.Int64("start")), Integer(verifrt.Int64("count")))
+	}
+	if n > 0 {
+		dict["Index"] = index
+	}
+	_, ss, err := checkXRefStreamDict(dict, rawLen)
+	if err != nil {
+		verifrt.Cover("rejected")
+		verifrt.Assert(IsMalformed(err), "rejection is a malformed-file error")
+		return
+	}
+	verifrt.Cover("accepted")
+	budget := int64(8192) + 32*rawLen // limits.XRefEntriesBase, limits.XRefEntriesPerByte
+	var total int64
+	inside := true
+	for _, sec := range ss {
+		total += int64(sec.Size)
+		if int64(sec.Start)+int64(sec.Size) > size {
+			inside = false
+		}
+	}
+	verifrt.Assert(inside, "every subsection lies below /Size")
+	verifrt.Assert(total <= budget, "declared entries stay within the documented budget of the raw length")
+	verifrt.Assert(total <= 1<<24, "declared entries stay below 2^24")
+}
